@@ -1427,6 +1427,10 @@ func (x *Exec) execInstr(fr *frame, st *State, in ssa.Instruction) error {
 		if err != nil {
 			return err
 		}
+		if xv.Loc != nil && xv.Loc.Kind == LHeapCell && len(xv.Loc.Path) == 0 && xv.Loc.Frozen == nil {
+			// pointer to a whole heap cell (an escaping local of basic type): its reference is the pointer
+			xv = Val{T: xv.Loc.Ref, Typ: i.X.Type()}
+		}
 		if xv.Loc != nil {
 			return unsupported("interior pointer converted to interface")
 		}
